@@ -88,7 +88,7 @@ pub fn gen_c08(tier: &str, seed: u64, out: &mut Vec<String>) {
     let mut rng = Rng::new(seed ^ 0xC08);
     let n = if tier == "thorough" { 2500 } else { 350 };
     for _ in 0..n {
-        let areas = layout(&mut rng, out);
+        let mut areas = layout(&mut rng, out);
         if rng.chance(1, 4) {
             // make one area read-only / no-access to see the order of checks
             let a = rng.pick(&areas).clone();
@@ -132,6 +132,22 @@ pub fn gen_c08(tier: &str, seed: u64, out: &mut Vec<String>) {
                     }
                 }
                 _ => out.push("areas".into()),
+            }
+            if rng.chance(1, 25) {
+                // shrink, then grow again within the old extent: the bytes that come back are zeros, not what was cut off
+                let k = rng.below(areas.len() as u64) as usize;
+                let a = areas[k].clone();
+                if a.len >= 2 && a.start != 0x1000 {
+                    let n1 = rng.below(a.len);
+                    let n2 = n1 + 1 + rng.below(a.len - n1);
+                    out.push(format!("mrb {:x} {:x}", a.start, a.len.min(0x140)));
+                    out.push(format!("resize {:x} {:x}", a.start, n1));
+                    out.push(format!("mr 1 {:x}", a.start.wrapping_add(n1)));
+                    out.push(format!("resize {:x} {:x}", a.start, n2));
+                    out.push(format!("mrb {:x} {:x}", a.start, n2.min(0x140)));
+                    out.push(format!("mr 1 {:x}", a.start.wrapping_add(n2)));
+                    areas[k].len = n2;
+                }
             }
             if rng.chance(1, 40) {
                 // a resize no host can satisfy fails and leaves the byte store as it was: the bounds at the old end still hold
